@@ -227,6 +227,19 @@ theorem findSub_occurrence {d₁ x d₂ : Bytes} (hne : x ≠ []) (h : ∀ c ∈
     rw [← List.cons_append]; exact List.isPrefixOf_iff_prefix.mpr (List.prefix_append _ _)
   simp [this]
 
+/-- the coercion context is looked up at the occurrence, whichever of the two lookups the source uses -/
+theorem contextPos_occurrence {d₁ x d₂ : Bytes} (hne : x ≠ []) (h : ∀ c ∈ d₁, x.head? ≠ some c) :
+    contextPos (d₁ ++ x ++ d₂) d₁.length x = some d₁.length := by
+  unfold contextPos
+  have hp : x.isPrefixOf ((d₁ ++ x ++ d₂).drop d₁.length) = true := by
+    rw [List.append_assoc, List.drop_left']
+    · rw [List.isPrefixOf_iff_prefix]; exact List.prefix_append x d₂
+    · rfl
+  rw [hp, Bool.and_true]
+  split
+  · rfl
+  · exact findSub_occurrence hne h
+
 -- first-letter fix-up ------------------------------------------------------------------------------------------------------
 
 /-- same style on both sides: the fix-up has nothing to do -/
